@@ -121,8 +121,14 @@ class Rule_ST09(BaseRule):
             get_from_expression_element_alias(
                 children.recursive_crawl("from_expression_element")[0],
                 context.dialect.name,
-            )
+            ),
+            None,
         )
+        # If we can't name the first table (e.g. its alias is only a column
+        # definition list: `FROM json_to_record(x) AS (a int)`), then we
+        # can't tell which side of a condition it's on.
+        if from_expression_alias_info is None:
+            return None
         from_expression_alias: str = (
             from_expression_alias_info.segment.raw_normalized(False)
             if from_expression_alias_info.segment
@@ -132,10 +138,13 @@ class Rule_ST09(BaseRule):
         table_aliases.append(from_expression_alias)
 
         # the rest of the aliases come from the different join clauses
-        join_clause_alias_infos: list[AliasInfo] = [
-            get_join_clause_aliases(join_clause, context.dialect.name)[0][1]
-            for join_clause in [clause for clause in join_clauses]
-        ]
+        join_clause_alias_infos: list[AliasInfo] = []
+        for join_clause in join_clauses:
+            aliases_in_join = get_join_clause_aliases(join_clause, context.dialect.name)
+            # As above: a joined table that we can't name.
+            if not aliases_in_join:
+                return None
+            join_clause_alias_infos.append(aliases_in_join[0][1])
 
         join_clause_aliases = [
             (
